@@ -6,9 +6,9 @@ from checklib import Check, Family
 
 OPN = {0: 'none', 1: 'cancel', 2: 'resched', 3: 'reprio', 4: 'pcancel', 5: 'schedule', 6: 'clear', 7: 'cancel-absent'}
 fams = []
-def fam(nev, o1, o2, fill=0, tier='quick', witness=False, w=1):
-    defs = ['NEV=%d' % nev, 'OP1=%d' % o1, 'OP2=%d' % o2, 'FILL=%d' % fill] + (['WITNESS=1'] if witness else [])
-    fams.append(Family('n%d-%s-%s%s%s' % (nev, OPN[o1], OPN[o2], '-fill%d' % fill if fill else '', '-witness' if witness else ''),
+def fam(nev, o1, o2, fill=0, tier='quick', witness=False, w=1, o1b=0, tie=0):
+    defs = ['NEV=%d' % nev, 'OP1=%d' % o1, 'OP2=%d' % o2, 'FILL=%d' % fill, 'OP1B=%d' % o1b, 'FILLTIE=%d' % tie] + (['WITNESS=1'] if witness else [])
+    fams.append(Family('n%d-%s%s-%s%s%s%s' % (nev, OPN[o1], '+' + OPN[o1b] if o1b else '', OPN[o2], '-fill%d' % fill if fill else '', '-tie' if tie else '', '-witness' if witness else ''),
                        'h_c01.c', 'h_c01', defs, tier=tier, witness=witness, weight=w, validate=4))
 fam(3, 0, 0)
 fam(3, 0, 0, witness=True)
@@ -20,6 +20,14 @@ for o in (1, 2, 3, 4, 5, 6, 7):
 fam(2, 0, 5, fill=6, w=2)
 fam(2, 5, 2, fill=6, w=2)
 fam(2, 2, 3, fill=7, w=2)
+# removal / re-ranking deep inside a heap of same-instant events (the moved last entry may have to rise)
+fam(1, 1, 0, fill=6, tie=1, w=3)
+fam(2, 1, 0, fill=5, tie=1, w=6)
+fam(1, 3, 1, fill=6, tie=1, w=4)
+fam(1, 4, 0, fill=6, tie=1, w=4)
+# clear after the queue has grown, then schedule again: old handles must be gone
+fam(2, 6, 0, fill=7, o1b=5, w=2)
+fam(2, 6, 1, fill=9, o1b=5, w=2)
 # thorough: four symbolic events, pairs of mutations, growth to 32
 fam(4, 0, 0, tier='thorough', w=5)
 for o1 in (1, 2, 3, 5):
